@@ -121,6 +121,7 @@ def capture_obligations(rep, res, entry, out, dom, trapz):
     R.rule_type_errors(rep, res, "QTY", "R-QTY", entry)
     R.rule_no_global_state(rep, res, entry)
     R.rule_dtype_casts(rep, res, entry)
+    R.rule_dtype(rep, res, entry)
     gradient_weights(rep, res, entry)
     ints = res.events("integrate")
     if dom == "array" or trapz:
